@@ -8,7 +8,9 @@ from .. import common, build, lean, check, script, wiregen
 MODULE = "Dbus.Props.C07"
 THEOREMS = ["quoted_value_roundtrip", "unbalanced_quote_rejected", "applyToken_interface", "applyToken_member",
             "duplicate_interface_rejected", "unknown_key_rejected", "too_long_rejected", "path_namespace_semantics",
-            "arg_plain_semantics", "arg_namespace_semantics", "arg_path_semantics", "unicast_needs_eavesdrop"]
+            "arg_plain_semantics", "arg_namespace_semantics", "arg_path_semantics", "unicast_needs_eavesdrop",
+            "tokenize_iff_bounded_grammar", "tokenize_complete", "tokenize_sound", "parse_accepts_iff",
+            "remove_removes_one", "remove_fails_iff", "remove_after_add"]
 
 IFACES = [b"a.b", b"a.b.c", b"org.x", b"a"]
 MEMBERS = [b"M", b"Changed", b"a.b", b""]
